@@ -48,40 +48,15 @@ def notPut : Ev → Prop
 
 /-! ### the cache probe -/
 
-/-- what the cache probe answers is a function of the cache contents only -/
-def hitPure (cache : List (Bytes × Nat)) (p : Bytes) : List Bytes → Option Nat
-  | [] => none
-  | e :: es => match lookupP (p ++ e) cache with
-    | some id => some id
-    | none => hitPure cache p es
-
-def fromCachePure (cache : List (Bytes × Nat)) (exts : List Bytes) (p : Bytes) : Option Nat :=
-  match lookupP p cache with
-  | some id => some id
-  | none => hitPure cache p exts
-
-theorem probeCache_spec (s : SetSt) (p : Bytes) (es : List Bytes) :
-    (probeCache s p es).1 = hitPure s.cache p es ∧ (probeCache s p es).2.cache = s.cache ∧
-    Step isGet s (probeCache s p es).2 := by
-  induction es generalizing s with
-  | nil => exact ⟨rfl, rfl, Step.refl _ _⟩
-  | cons e es ih =>
-    simp only [probeCache, cacheGet, hitPure]
-    cases h : lookupP (p ++ e) s.cache with
-    | some id => exact ⟨rfl, rfl, Step.ev s _ trivial⟩
-    | none =>
-      have := ih (ev (.get (p ++ e)) s)
-      exact ⟨this.1, this.2.1, (Step.ev s _ trivial).trans this.2.2⟩
+/-- what the cache probe answers is a function of the cache contents only: the entry stored under
+    the request path -/
+def fromCachePure (cache : List (Bytes × Nat)) (_exts : List Bytes) (p : Bytes) : Option Nat :=
+  lookupP p cache
 
 theorem fromCache_spec (s : SetSt) (p : Bytes) :
     (fromCache s p).1 = fromCachePure s.cache s.exts p ∧ (fromCache s p).2.cache = s.cache ∧
-    Step isGet s (fromCache s p).2 := by
-  simp only [fromCache, cacheGet, fromCachePure]
-  cases h : lookupP p s.cache with
-  | some id => exact ⟨rfl, rfl, Step.ev s _ trivial⟩
-  | none =>
-    have := probeCache_spec (ev (.get p) s) p s.exts
-    exact ⟨this.1, this.2.1, (Step.ev s _ trivial).trans this.2.2⟩
+    Step isGet s (fromCache s p).2 :=
+  ⟨rfl, rfl, Step.ev s _ trivial⟩
 
 /-! ### what every lookup may do, by mode and caching flag -/
 
@@ -354,5 +329,57 @@ theorem second_lookup_is_identical_and_silent (f1 f2 : Nat) (s s' : SetSt) (p : 
     rw [hh] at fc
     simp only at fc
     rw [fc.1]
+
+theorem probeLoader_cache (p : Bytes) : ∀ (es : List Bytes) (s : SetSt), (probeLoader s p es).2.cache = s.cache := by
+  intro es
+  induction es with
+  | nil => intro s; rfl
+  | cons e es ih =>
+    intro s
+    simp only [probeLoader]
+    split
+    · rfl
+    · rw [ih]; rfl
+
+/-- **A name that is not remembered is resolved by the extension order.**  Outside development mode,
+    when nothing is cached under the request path itself, the lookup loads exactly the first
+    candidate `p ++ e` (in the configured order) that exists in the loader - whatever else the cache
+    holds, in particular entries of other names that happen to equal `p ++ extension`. -/
+theorem unremembered_name_follows_extension_order (fuel : Nat) (s : SetSt) (p : Bytes) (c : Bool) (ps : List Bytes)
+    (pre post : List Bytes) (e : Bytes) (hexts : s.exts = pre ++ e :: post)
+    (hmiss : lookupP p s.cache = none)
+    (hpre : ∀ x ∈ pre, (lookupP (p ++ x) s.files).isSome = false)
+    (he : (lookupP (p ++ e) s.files).isSome = true) :
+    ∃ s2, s2.files = s.files ∧ s2.cache = s.cache ∧
+      getTemplate (fuel + 1) s p c ps =
+        (match loadFromFile fuel s2 (p ++ e) c ps with
+         | (.ok id, s3) =>
+           if c && !s3.dev then (.ok id, ev (.put p id) { s3 with cache := (p, id) :: s3.cache }) else (.ok id, s3)
+         | other => other) := by
+  -- the state after the (missed) cache probe
+  let s1 : SetSt := (if s.dev = true then ((none : Option Nat), s) else fromCache s p).2
+  have hhit : (if s.dev = true then ((none : Option Nat), s) else fromCache s p) = (none, s1) := by
+    by_cases hd : s.dev = true
+    · simp [s1, hd]
+    · simp [s1, hd, fromCache, cacheGet, hmiss]
+  have hs1f : s1.files = s.files := by
+    by_cases hd : s.dev = true <;> simp [s1, hd, fromCache, cacheGet, ev]
+  have hs1c : s1.cache = s.cache := by
+    by_cases hd : s.dev = true <;> simp [s1, hd, fromCache, cacheGet, ev]
+  have hs1e : s1.exts = s.exts := by
+    by_cases hd : s.dev = true <;> simp [s1, hd, fromCache, cacheGet, ev]
+  have hord := extension_order s1 p pre post e (by rw [hs1f]; exact hpre) (by rw [hs1f]; exact he)
+  refine ⟨(probeLoader s1 p (pre ++ e :: post)).2, ?_, ?_, ?_⟩
+  · rw [(frame_probeLoader c s1 p (pre ++ e :: post)).step.files]; exact hs1f
+  · rw [probeLoader_cache]; exact hs1c
+  · simp only [getTemplate]
+    rw [hhit]
+    simp only [hs1e, hexts]
+    cases hpl : probeLoader s1 p (pre ++ e :: post) with
+    | mk r s2 =>
+      rw [hpl] at hord
+      simp only at hord
+      rw [hord.1]
+      rfl
 
 end JetVerif.Props.C16
